@@ -365,7 +365,12 @@ def slotsOf (total : Nat) (written : List Nat) : Array Bool :=
     a prefilled slot is skipped; for any other slot the short id is read back from
     `pl[shortidx_idx : shortidx_idx+6]` and looked up in the map the first loop built (`seen`);
     `panic("Tx idx … is missing")` when it is not there; then `shortidx_idx += 6`.
-    txpool.TxMutex is held (no defer) throughout. -/
+    txpool.TxMutex is held (no defer) throughout.
+    NOT in the model: the same branch stores `col.Sid2idx[sid] = n` for a short id the mempool did not resolve, into a
+    map that is made only `if missing > 0` - a second (runtime) panic site under TxMutex. Argument, not a theorem:
+    `missing = len(shortids) - cnt_found` counts exactly the ids whose map value stayed nil (a duplicate id aborts
+    before), so an unresolved id in this loop implies missing ≥ 1 and the map is there. The harness reaches the
+    branch (cmpctblock with unknown short ids → getblocktxn) in both streams. -/
 def secondPass (pl : Bytes) (n : Int) (seen : List Bytes) : List Bool → Int → Nat → Res
   | [], _, st => ⟨.ok "cmpctblock" [] [], [], st⟩
   | true :: sl, sidx, st => secondPass pl n seen sl sidx (st + 1)
@@ -649,6 +654,22 @@ def getMPDone (ours : Bool) (pl : Bytes) : Res :=
   if pl.length < 1 then ⟨.ok "getmpdone" [0] [], [], 1⟩ else
   if !indexOk pl.length 0 then ⟨.panic "GetMPDone:pl[0]", [], 1⟩ else
   ⟨.ok "getmpdone" [if pl.head? = some 0 then 0 else 1] [], [], 1⟩
+
+/-! ### core.go FetchMessage: the header loop -/
+
+/-- `for c.recv.hdr_len < 24 { n, e = SockRead(c.Conn, c.recv.hdr[c.recv.hdr_len:24]); …; c.recv.hdr_len += n; …
+    if c.recv.hdr_len != 24 { if c.recv.hdr_len > 24 { panic("ERROR: hdr_len > 24 …") } … } }` over successive
+    reads (across calls: hdr_len is kept in the connection) returning `reads` bytes. `none` = the explicit panic,
+    which stands between c.Mutex.Lock() and its Unlock. -/
+def hdrReads : List Nat → Nat → Option Nat
+  | [], hl => some hl
+  | n :: rs, hl => if hl ≥ 24 then some hl else if hl + n > 24 then none else hdrReads rs (hl + n)
+
+/-- the net.Conn.Read contract along such a run: every read returns at most the length of the slice it was given,
+    `hdr[hdr_len:24]` (common.SockRead only ever shortens that slice) -/
+def readsWithin : List Nat → Nat → Bool
+  | [], _ => true
+  | n :: rs, hl => hl ≥ 24 || (decide (n ≤ 24 - hl) && readsWithin rs (hl + n))
 
 /-! ### core.go FetchMessage: one complete message at the start of `wire` -/
 
